@@ -36,9 +36,19 @@ macro_rules! c11_row {
             let sbits = <$S>::BITS as usize;
             let nwords_state = sbits / wbits;
             let mut n_msgs = 0;
+            // every other message is written by the encoder of the message before it, emptied with `clear()` ("resets the
+            // coder to the same state as new()"): back-to-back messages from one reused encoder
+            let mut reuse: Option<Enc> = None;
             while n_msgs < 48 && !src.is_empty() {
                 n_msgs += 1;
-                let mut enc = Enc::new();
+                let mut enc = match reuse.take() {
+                    Some(mut e) => {
+                        e.clear();
+                        ctx.label("encoder_reused_after_clear");
+                        e
+                    }
+                    None => Enc::new(),
+                };
                 let mut msg: Vec<(usize, Tab)> = Vec::new();
                 let k = src.below_usize(7);
                 let steer = src.ratio(3, 4);
@@ -118,7 +128,13 @@ macro_rules! c11_row {
                         }
                     }
                 }
-                let words: Vec<$W> = enc.into_compressed().unwrap_infallible();
+                let words: Vec<$W> = if n_msgs % 2 == 1 {
+                    let w = enc.get_compressed().to_vec();
+                    reuse = Some(enc);
+                    w
+                } else {
+                    enc.into_compressed().unwrap_infallible()
+                };
                 let suffix_kind = src.below(5);
                 let suffix_len = nwords_state + 2;
                 let mut all = words.clone();
